@@ -35,9 +35,16 @@ _CHILD = textwrap.dedent('''
     import yaml
     nodes = yaml.safe_load(open(sys.argv[1]))["pipeline"]["nodes"]
     ids = idgen.real_ids(nodes)
-    ids.pop("payload")
+    ids["payload"] = json.dumps(ids.pop("payload"), sort_keys=True, default=str)      # the whole inspection payload, as text
     print("IDS " + json.dumps(ids, sort_keys=True))
 ''')
+
+
+# required context keys that differ only in letter case: any ordering rule that ignores case falls back on set iteration order
+CASE_COLLIDING = [
+    [{"processor": "TSourceDef"}, {"processor": 'template:"{Batch}_{batch}":label'}, {"processor": "TOp1"}],
+    [{"processor": "TSourceDef"}, {"processor": "delete:Key"}, {"processor": "delete:key"}, {"processor": "rename:KEY2:k3"}, {"processor": "rename:key2:k4"}],
+]
 
 
 def start_ids(nodes, ctx0=None, pipeline=None):
@@ -172,11 +179,11 @@ def run(tier: str) -> int:
     with rt.tempdir() as d:
         (d / "child.py").write_text(_CHILD)
         for k in range(n_sub):
-            nodes = configs[(k * 7) % len(configs)]
+            nodes = configs[(k * 7) % len(configs)] if k % 3 else CASE_COLLIDING[(k // 3) % len(CASE_COLLIDING)]
             base = idgen.real_ids(nodes)
-            base.pop("payload")
+            base["payload"] = json.dumps(base.pop("payload"), sort_keys=True, default=str)
             (d / f"cfg{k}.yaml").write_text(yaml.safe_dump({"pipeline": {"nodes": nodes}}, sort_keys=False))
-            for seed, cwd in (("0", str(core.REPO)), ("1", str(d)), ("random", "/")):
+            for seed, cwd in (("0", str(core.REPO)), ("1", str(d)), ("random", "/"), ("4", "/"), ("11", "/")):
                 env = dict(os.environ, PYTHONHASHSEED=seed)
                 try:
                     p = subprocess.run([sys.executable, str(d / "child.py"), str(d / f"cfg{k}.yaml")], capture_output=True, text=True,
